@@ -4,6 +4,7 @@
   EVERY event (hence every order in which start requests, results, retry requests, script results,
   signals and reporter errors can reach the dispatcher).
 -/
+import NextestModel.Lemmas.System
 import NextestModel.Thm.C07
 import NextestModel.Thm.C02
 import NextestModel.Model.Dispatcher
@@ -530,6 +531,81 @@ theorem no_direct_delivery_unless_cancelled (s : DState) (e : DEvent) (hc : s.ca
 example : ∃ s o, run (DState.init 2 (.count 1)) [.started 0, .started 1, .finished 0 (.fail none false) false, .started 1] = .ok (s, o)
     ∧ s.cancel = some .testFailure := by
   refine ⟨_, _, rfl, rfl⟩
+
+/-! ## The dispatcher together with its units (`Model/System`): every interleaving -/
+
+section system
+open NextestModel.System
+
+/-- **A cancelled run never has a unit that would sit out its retry delay** — for every number of tests, every max-fail
+    setting and EVERY interleaving of scheduling, attempts ending, requests being read, timers, signals, reporter errors and
+    message deliveries (`runActs`: any action list from the initial state): whenever the run is being cancelled and a unit is
+    waiting out a retry delay, a cancellation request is in that unit's mailbox, or its `AttemptFailedWillRetry` is still on
+    its way to the dispatcher, which answers it with one.  (False before the repair of F5: a unit that had consumed the
+    broadcast while its attempt was running entered the delay with an empty mailbox.) -/
+theorem no_delay_sat_out (n : Nat) (mf : MaxFail) (acts : List Act) (s : Sys) (h : runActs (Sys.init n mf) acts = some s)
+    (i : Nat) (hd : s.phase i = .delay) (hc : s.d.cancel ≠ none) : WakePending s i :=
+  (inv_run acts _ s (inv_init n mf) h).wake i hd hc
+
+/-- … and a pending wake-up in the mailbox does end the delay: reading at most as many requests as the mailbox holds, the
+    unit leaves the delay and asks to start its retry — which a cancelled dispatcher refuses (`no_start_after_cancel`) -/
+theorem wake_ends_delay : ∀ (m : List Req) (s : Sys) (i : Nat), s.mail i = m → s.phase i = .delay → (∃ r ∈ m, isWake r = true) →
+    ∃ k s', k ≤ m.length ∧ runActs s (List.replicate k (.recv i)) = some s' ∧ s'.phase i = .waitRetry := by
+  intro m
+  induction m with
+  | nil => intro s i _ _ ⟨r, hr, _⟩; cases hr
+  | cons r rest ih =>
+    intro s i hm hp hw
+    by_cases hwk : isWake r = true
+    · refine ⟨1, send (setPhase (setMail s i rest) i .waitRetry) (.retryStarted i 0 0), by simp, ?_, ?_⟩
+      · simp only [List.replicate, runActs, System.step, hm, hp, hwk, if_true]
+      · simp [send, setPhase]
+    · have hwk' : isWake r = false := by simpa using hwk
+      obtain ⟨r', hr', hw'⟩ := hw
+      have hin : r' ∈ rest := by
+        rcases List.mem_cons.mp hr' with rfl | h
+        · rw [hwk'] at hw'; cases hw'
+        · exact h
+      obtain ⟨k, s', hk, hrun, hph⟩ := ih (setMail s i rest) i (by simp [setMail]) (by simpa [setMail] using hp) ⟨r', hin, hw'⟩
+      refine ⟨k + 1, s', by simp; omega, ?_, hph⟩
+      simp only [List.replicate, runActs, System.step, hm, hp, hwk', Bool.false_eq_true, if_false]
+      exact hrun
+
+/-- **Running tests are left to finish**: whatever request a unit reads while its attempt is in progress, it stays in that
+    attempt and sends nothing to the dispatcher — only the process's own end (or, for a signal, the termination the unit model
+    describes) ends it -/
+theorem running_left_to_finish (s : Sys) (i : Nat) (s' : Sys) (hp : s.phase i = .running) (h : System.step s (.recv i) = some s') :
+    s'.phase i = .running ∧ s'.chan = s.chan := by
+  simp only [System.step] at h
+  split at h
+  · cases h
+  · rw [hp] at h
+    simp only [Option.some.injEq] at h
+    subst h
+    exact ⟨by simpa [setMail] using hp, rfl⟩
+
+/-- **A unit whose attempt runs, or that is between attempts, is always reachable by a broadcast** (registered with an open
+    receiver) — in every reachable state; this is what makes "the signal / the cancellation reaches every running test" true
+    of the whole system and not only of the dispatcher's bookkeeping -/
+theorem running_units_are_registered (n : Nat) (mf : MaxFail) (acts : List Act) (s : Sys)
+    (h : runActs (Sys.init n mf) acts = some s) (i : Nat)
+    (hp : s.phase i = .running ∨ s.phase i = .delay ∨ s.phase i = .waitRetry) :
+    s.d.running.any (·.1 == i) = true ∧ s.d.rxOpen.contains i = true :=
+  (inv_run acts _ s (inv_init n mf) h).reg i hp
+
+-- non-vacuity: F5's schedule.  Test 0 fails with a retry to come while test 1's failure has already cancelled the run and
+-- test 0 has already read (and ignored) the broadcast: it enters the delay with an empty mailbox, and the dispatcher's
+-- answer to its AttemptFailedWillRetry wakes it
+example : (runActs (Sys.init 2 (.count 1))
+      [.dispatch 0, .deliver, .dispatch 1, .deliver, .exitFinish 1 (.fail none false) false, .deliver, .recv 0,
+       .exitRetry 0 (.fail none false) false]).map (fun s => (decide (s.phase 0 = .delay), s.d.cancel, s.mail 0, s.chan))
+    = some (true, some .testFailure, [], [.attemptFailedWillRetry 0 (.fail none false) false]) := by decide
+example : (runActs (Sys.init 2 (.count 1))
+      [.dispatch 0, .deliver, .dispatch 1, .deliver, .exitFinish 1 (.fail none false) false, .deliver, .recv 0,
+       .exitRetry 0 (.fail none false) false, .deliver, .recv 0, .deliver]).map (fun s => (s.phase 0, s.mail 0))
+    = some (.gone, []) := by decide
+
+end system
 
 /-! ## Tie to the source: `CancelReason`'s declaration order (its derived `Ord`) -/
 
